@@ -578,8 +578,8 @@ class Schema:
                 # then is is a authorization schema property
                 p[0]["authorization"] = p[2]
             else:
-                if isinstance(p_list[-2], dict):
-                    last_key = list(p_list[-2].keys())[-1]
+                last_key = list(p_list[-2].keys())[-1] if isinstance(p_list[-2], dict) else None
+                if isinstance(p[0].get(last_key), str):  # two-word property (CHARACTER SET utf8): the word replaces its placeholder
                     p[0][last_key] = p_list[-1]
 
     def set_properties_for_schema_and_database(self, p: List, p_list: List) -> None:
